@@ -43,6 +43,8 @@ type constsImporter struct {
 	root  string // <repo>/v2
 	fset  *token.FileSet
 	cache map[string]*types.Package
+	infos map[string]*types.Info // optional: expression types/values per package path (bitops facts)
+	files map[string][]*ast.File
 }
 
 func (im *constsImporter) Import(path string) (*types.Package, error) {
@@ -90,9 +92,14 @@ func (im *constsImporter) check(rel, path string) (*types.Package, []*ast.File, 
 }
 
 func (im *constsImporter) checkFiles(path string, files []*ast.File) (*types.Package, []*ast.File, error) {
-	// placeholder first: import cycles cannot occur in valid Go, but be safe
 	conf := types.Config{Importer: im, Error: func(error) {}, FakeImportC: true}
-	p, _ := conf.Check(path, im.fset, files, nil)
+	var info *types.Info
+	if im.infos != nil {
+		info = &types.Info{Types: map[ast.Expr]types.TypeAndValue{}}
+		im.infos[path] = info
+		im.files[path] = files
+	}
+	p, _ := conf.Check(path, im.fset, files, info)
 	if p == nil {
 		return nil, nil, fmt.Errorf("type check of %s produced no package", path)
 	}
@@ -251,4 +258,8 @@ const (
 		return fmt.Errorf("unevaluated: got %v want [G]", uneval)
 	}
 	return nil
+}
+
+func parserParse(fset *token.FileSet, name, src string) (*ast.File, error) {
+	return parser.ParseFile(fset, name, src, 0)
 }
